@@ -35,6 +35,11 @@ type Channel struct {
 
 	join   chan joinCtx
 	depart chan struct{}
+
+	// joined is true from the moment the room's self-presence has been handed
+	// to a pending join until the occupant's unavailable presence (or a failed
+	// attempt to leave) has been processed. It is guarded by client.managedM.
+	joined bool
 }
 
 // Addr returns the address of the channel.
@@ -47,12 +52,13 @@ func (c *Channel) Me() jid.JID {
 	return c.addr
 }
 
-// Joined returns true if this room is still being managed by the service.
+// Joined returns true if the room has confirmed that we are an occupant (a
+// call to Join returned successfully) and we have not left or been removed
+// since.
 func (c *Channel) Joined() bool {
 	c.client.managedM.Lock()
 	defer c.client.managedM.Unlock()
-	_, ok := c.client.managed[c.addr.Bare().String()]
-	return ok
+	return c.joined
 }
 
 // Leave exits the MUC, causing Joined to begin to return false.
@@ -123,6 +129,11 @@ func (c *Channel) LeavePresence(ctx context.Context, status string, p stanza.Pre
 	verifhook.Yield("muc.leave.wait.before")
 	select {
 	case err := <-errChan:
+		// Even if leaving failed we can no longer assume that we are in sync
+		// with the room.
+		c.client.managedM.Lock()
+		c.joined = false
+		c.client.managedM.Unlock()
 		return err
 	case <-c.depart:
 	case <-ctx.Done():
